@@ -208,6 +208,20 @@ class DriverRules:
             I, out = self.run('encrypt', T)
             succ = [(s, v) for s, v in out if v == C(1)]
             nsucc += len(succ)
+            # R13.e: a run that reports failure (cancelled, short input ...) must not have sealed the file with a tag
+            nfail = 0
+            for s, v in out:
+                if v == C(1):
+                    continue
+                nfail += 1
+                ev_ = accesses(s)
+                tagw = [e for e in ev_ if e[0] == 'W' and e[1] == 'out' and e[2] == C(10) and e[4][0] != 'zero']
+                for e in tagw:
+                    rec.ob('R13.e', 'R13.e@%s::no-tag-on-a-failing-run' % fkey(f), False, e[5],
+                           'T=%d: execute_encrypt returns %s on a path that has written a tag at offset 10: the unfinished file verifies' % (T, show(v)),
+                           path=[str(x) for x in s.trace[-8:]])
+            rec.ob('R13.e', 'R13.e@%s::tag-only-on-success' % fkey(f), True, where,
+                   'T=%d: %d path(s) of execute_encrypt that do not return success were examined for a tag write (process-wide flags are unknown values)' % (T, nfail))
             for s, v in succ:
                 self.mac_key_rule(s, T, f)
                 ev = accesses(s)
